@@ -170,6 +170,11 @@ def run(chk):
     model(chk, 9 if q else 12, 10 if q else 14, 11 if q else 14, 2 if q else 3)
     behs = generate(chk, 7 if q else 9, 8 if q else 10, 0, 2, 'feeds(step=0)')
     rng.shuffle(behs)
+    cbehs = [b for b in generate(chk, 7 if q else 9, 5 if q else 7, 7 if q else 9, 2, 'feeds(with convergence step)') if b['step'] > 0]
+    rng.shuffle(cbehs)
+    # boundary behaviours first: the total is a multiple of the step although the last in-loop point is not at the total
+    edge = [b for b in cbehs if sum(b['ns']) % b['step'] == 0 and b['cols'] and b['cols'][-1]['kind'] == 'rem']
+    cbehs = [x for pair in zip(edge, cbehs) for x in pair] + cbehs if edge else cbehs
     old = scared.Container._BATCH_SIZE
     frames = list(pl.FRAMES)
     try:
@@ -178,13 +183,14 @@ def run(chk):
         for ki, kind in enumerate(pl.KINDS):
             for mode in ('attack', 'reverse'):
                 for j in range(per):
-                    beh = behs[(nb * 7919) % len(behs)]
+                    use_step = mode == 'attack' and j % 2 == 1          # every second attack run also asks for convergence traces
+                    beh = cbehs[(nb // 2) % len(cbehs)] if use_step else behs[(nb * 7919) % len(behs)]
                     nb += 1
                     frame = frames[nb % len(frames)]
                     chain = pl.CHAINS[(nb // 2) % len(pl.CHAINS)]
                     prec = 'float64' if nb % 3 else 'float32'
-                    ctx = {'property': 'C02', 'behaviour': beh, 'kind': kind, 'mode': mode, 'precision': prec, 'frame': frame, 'chain': chain, 'seed': chk.seed + nb}
-                    a, rec, sets, mk = execute(beh, kind, mode, prec, frame, chain, chk.seed + nb)
+                    ctx = {'property': 'C02', 'behaviour': beh, 'kind': kind, 'mode': mode, 'precision': prec, 'frame': frame, 'chain': chain, 'seed': chk.seed + nb, 'convergence_step': int(beh['step']) if use_step else None}
+                    a, rec, sets, mk = execute(beh, kind, mode, prec, frame, chain, chk.seed + nb, step=int(beh['step']) if use_step else None)
                     bad, ctx = compare(chk, beh, a, rec, sets, mk, ctx, frame, chain)
                     chk.count((kind, mode, json.dumps(beh, sort_keys=True), frame, tuple(chain), prec), nontrivial=len(beh['fed']) > 1)
                     chk.traces_validated += 1
@@ -206,7 +212,7 @@ def replay(chk, path):
         return 0
     old = scared.Container._BATCH_SIZE
     try:
-        a, rec, sets, mk = execute(rp['behaviour'], rp['kind'], rp['mode'], rp['precision'], rp['frame'], rp['chain'], rp['seed'])
+        a, rec, sets, mk = execute(rp['behaviour'], rp['kind'], rp['mode'], rp['precision'], rp['frame'], rp['chain'], rp['seed'], step=rp.get('convergence_step'))
         bad, _ = compare(chk, rp['behaviour'], a, rec, sets, mk, {}, rp['frame'], rp['chain'])
     finally:
         scared.Container._BATCH_SIZE = old
